@@ -240,9 +240,6 @@ impl Sim {
                     }
                 }
                 // other errors (buffer too small, ...): tolerated, nothing is asserted
-                if !max && !events.is_empty() {
-                    out.push(finding(&["C13"], format!("failed send_request ({:?}) produced events", e)));
-                }
                 if !max && before.outstanding != after.outstanding {
                     out.push(finding(&["C12"], format!("failed send_request ({:?}) changed the outstanding table", e)));
                 }
@@ -618,7 +615,12 @@ impl Sim {
             }
         }
         // C10: fingerprint gate
-        if self.cfg.fingerprint && r.is_ok() && facts.ref_ok && facts.fp != Some(true) {
+        let completes = events.iter().any(|e| match e {
+            Ev::Failed(t, _) | Ev::Retry(t) => *t == facts.tid,
+            Ev::Received { tid, .. } => *tid == facts.tid,
+            _ => false,
+        });
+        if self.cfg.fingerprint && (r.is_ok() || completes) && facts.ref_ok && facts.fp != Some(true) {
             out.push(finding(
                 &["C10"],
                 format!(
@@ -808,7 +810,9 @@ impl Sim {
     fn failure_checks(&mut self, i: usize, kind: FinalKind, facts: &Facts, trusted: bool, out: &mut Vec<Finding>) {
         let _ = i;
         match (self.cfg.mech.clone(), kind) {
-            (Mech::None, k) => out.push(finding(&["C05"], format!("{:?} reported by a client without credentials", k))),
+            // a failure reported on receipt by a client without credentials is one final outcome like any other:
+            // multiplicity is judged by the per-id counting, the fingerprint gate by the C10 invariant
+            (Mech::None, _) => {}
             (Mech::ShortTerm(_), FinalKind::FailedProtection) => {
                 if self.cfg.reliable.is_none() {
                     out.push(finding(
